@@ -449,11 +449,45 @@ fn run_section(c: &Case, rng: &mut Rng) {
     };
     let (nseg, total) = section_checks(c, &curves, &mut v);
     let closed_mesh = c.watertight || !c.open_section;
+    if std::env::var("VH_C13_TRACE").is_ok() && (curves.len() > 20 || (c.watertight && curves.iter().any(|cv| (cv.points()[0] - cv.points()[cv.points().len() - 1]).norm() > 1e-6))) {
+        let clear = c.mesh.vertices().iter().map(|p| c.plane.signed_distance_to_point(p).abs()).fold(f64::INFINITY, f64::min);
+        eprintln!("TRACE kind {:?} faces {} verts {} watertight {} open_section {} clean {} clearance {clear:e} plane n {:?} d {} curves {}", c.kind, c.mesh.faces().len(), c.mesh.vertices().len(), c.watertight, c.open_section, c.clean, c.plane.normal, c.plane.d, curves.len());
+        for cv in curves.iter().take(6) {
+            eprintln!("   curve n={} first {:?} last {:?}", cv.points().len(), cv.points()[0], cv.points()[cv.points().len() - 1]);
+        }
+        let vs = c.mesh.vertices();
+        let near: Vec<(usize, f64)> = (0..vs.len()).map(|k| (k, c.plane.signed_distance_to_point(&vs[k]))).filter(|x| x.1.abs() < 1e-3).collect();
+        eprintln!("   near-plane vertices {near:?}");
+        for cv in curves.iter().take(3) {
+            let ids: Vec<String> = cv.points().iter().map(|p| match vs.iter().position(|q| (q - p).norm() < 1e-9) { Some(k) => format!("v{k}"), None => { let f = c.mesh.faces().iter().position(|f| { let t = parry3d_f64::shape::Triangle::new(vs[f[0] as usize], vs[f[1] as usize], vs[f[2] as usize]); use parry3d_f64::query::PointQuery; t.distance_to_local_point(p, false) < 1e-9 }); format!("f{:?}", f.map(|k| c.mesh.faces()[k])) } }).collect();
+            eprintln!("   curve: {}", ids.join(" "));
+        }
+        let bb = c.mesh.aabb();
+        eprintln!("   aabb {:?} {:?}", bb.mins, bb.maxs);
+    }
     let ctol = 1e-8 * (1.0 + c.scale);
-    if closed_mesh {
+    // (a plane through vertices of an OPEN mesh is probed for termination and incidence only, see DESIGN 8.6)
+    // ... and a plane that contains a whole face has no well-defined section along that face
+    let contains_face = !c.clean && c.mesh.faces().iter().any(|f| f.iter().all(|k| c.plane.signed_distance_to_point(&c.mesh.vertices()[*k as usize]).abs() <= 1e-5));
+    if (c.watertight && !contains_face) || (closed_mesh && c.clean) {
         for (k, cv) in curves.iter().enumerate() {
             let p = cv.points();
             v.require((p[0] - p[p.len() - 1]).norm() <= ctol, "section.closed_for_watertight_mesh", || format!("{:?}: curve {k} of {} has a gap of {:e}", c.kind, curves.len(), (p[0] - p[p.len() - 1]).norm()));
+        }
+    }
+    if c.clean && !c.watertight {
+        // an open mesh: a section curve is closed or ends on the boundary of the mesh at both ends
+        let bnd = boundary_edges(&c.mesh);
+        let on_boundary = |p: &Point3| bnd.iter().any(|(a, b)| {
+            let (pa, pb) = (c.mesh.vertices()[*a as usize], c.mesh.vertices()[*b as usize]);
+            let ab = pb - pa;
+            let t = ((p - pa).dot(&ab) / ab.norm_squared()).clamp(0.0, 1.0);
+            (p - (pa + ab * t)).norm() <= ctol
+        });
+        for (k, cv) in curves.iter().enumerate() {
+            let p = cv.points();
+            let closed = (p[0] - p[p.len() - 1]).norm() <= ctol;
+            v.require(closed || (on_boundary(&p[0]) && on_boundary(&p[p.len() - 1])), "section.open_curve_ends_on_the_mesh_boundary", || format!("{:?}: curve {k} of {} ends inside the surface", c.kind, curves.len()));
         }
     }
     if c.clean {
@@ -514,6 +548,29 @@ fn run_section(c: &Case, rng: &mut Rng) {
             v.require(false, "section.commutes_with_rigid_motion", || "moved section failed".into());
         }
     }
+    // the implementation's own algorithm, statement by statement, in the model: same curves, same
+    // vertices, same order (every kind of case: clean or through vertices, closed or open)
+    if c.mesh.faces().len() <= 400 {
+        let mut i = Tok::new();
+        i.fs(c.plane.normal.as_slice()).f(c.plane.d).f(1e-10);
+        i.n(c.mesh.vertices().len());
+        for p in c.mesh.vertices() {
+            i.fs(p.coords.as_slice());
+        }
+        i.n(c.mesh.faces().len());
+        for f in c.mesh.faces() {
+            i.n(f[0] as usize).n(f[1] as usize).n(f[2] as usize);
+        }
+        let mut o = Tok::new();
+        o.n(curves.len());
+        for cv in &curves {
+            o.n(cv.points().len());
+            for p in cv.points() {
+                o.fs(p.coords.as_slice());
+            }
+        }
+        emit("section.curves", &i, &o, &Verdict::new());
+    }
     let mut o = Tok::new();
     o.n(nseg).f(total).n(curves.len());
     let small = c.mesh.faces().len() <= 400;
@@ -565,11 +622,66 @@ fn run_split(c: &Case) {
     emit_oracle_only("section.split", &Tok::new(), &Tok::new(), &v);
 }
 
+/// the curve tolerance argument only merges neighbouring curve vertices: whatever it is, the vertices
+/// returned lie on the plane and on the surface and the section is there when the plane crosses the
+/// mesh.  Planes are placed close to a mesh vertex (closer than the tolerance, clear of parry's own
+/// on-plane threshold) on watertight meshes.
+fn run_section_loose(c: &Case, rng: &mut Rng) {
+    if !c.watertight {
+        return;
+    }
+    let t = c.scale * 10f64.powf(rng.range(-3.5, -1.3));
+    let vs = c.mesh.vertices();
+    let pv = vs[rng.below(vs.len())];
+    let n = c.plane.normal;
+    let delta = t * rng.range(0.1, 0.8) * if rng.chance(0.5) { 1.0 } else { -1.0 };
+    let plane = Plane3::new(n, n.dot(&pv.coords) + delta);
+    let clear = vs.iter().map(|p| plane.signed_distance_to_point(p).abs()).fold(f64::INFINITY, f64::min);
+    if clear < 1e-5 * (1.0 + c.scale) {
+        return;
+    }
+    let arg = if rng.chance(0.25) { None } else { Some(t) };
+    let (mesh, pl2) = (c.mesh.clone(), plane.clone());
+    let res = with_watchdog(move || guarded(|| mesh.section(&pl2, arg).map_err(|e| e.to_string())));
+    let mut v = Verdict::new();
+    match res {
+        None => v.require(false, "section.returns", || format!("{:?} mesh, curve tolerance {arg:?}: no result within 6 s", c.kind)),
+        Some(Err(e)) => v.require(false, "section.panics", || format!("{:?} mesh, curve tolerance {arg:?}: {e}", c.kind)),
+        Some(Ok(Err(e))) => v.require(false, "section.returns_ok", || e.clone()),
+        Some(Ok(Ok(curves))) => {
+            let tol = 1e-9 * (1.0 + c.scale + plane.d.abs());
+            let mut total = 0.0;
+            let (mut wp, mut ws) = (0.0f64, 0.0f64);
+            for cv in &curves {
+                for p in cv.points() {
+                    wp = wp.max(plane.signed_distance_to_point(p).abs());
+                    ws = ws.max((c.mesh.point_closest_to(p) - p).norm());
+                }
+                total += cv.length();
+            }
+            v.require(wp <= tol, "section.vertices_on_plane_whatever_the_curve_tolerance", || format!("{:?}: a curve vertex is {wp:e} off the plane (curve tolerance {arg:?}, nearest mesh vertex {clear:e} from the plane)", c.kind));
+            v.require(ws <= 10.0 * tol, "section.vertices_on_surface_whatever_the_curve_tolerance", || format!("{:?}: {ws:e} (curve tolerance {arg:?})", c.kind));
+            let want = {
+                let probe = Case { mesh: c.mesh.clone(), kind: c.kind, plane: plane.clone(), clean: true, open_section: false, watertight: true, scale: c.scale };
+                crossings(&probe.mesh, &probe.plane)
+            };
+            let wlen: f64 = want.iter().map(|s| (s.1 - s.3).norm()).sum();
+            if !want.is_empty() && wlen > 10.0 * arg.unwrap_or(1e-6) {
+                v.require(!curves.is_empty(), "section.not_empty_when_the_plane_crosses", || format!("{:?}: {} face crossings of total length {wlen}, no curve (curve tolerance {arg:?})", c.kind, want.len()));
+            }
+            let slack = 2.0 * arg.unwrap_or(1e-6) * (want.len() as f64 + 1.0) + 1e-8 * (1.0 + wlen);
+            v.require((total - wlen).abs() <= slack, "section.length_is_the_length_of_the_face_crossings", || format!("{:?}: {total} vs {wlen} (curve tolerance {arg:?})", c.kind));
+        }
+    }
+    emit_oracle_only("section.loose_tolerance", &Tok::new(), &Tok::new(), &v);
+}
+
 /// a case that may never return is run in a child process with a memory cap and a time limit
 fn run_isolated(state: u64, c: &Case) {
     let exe = std::env::current_exe().expect("current_exe");
     let cmd = format!("ulimit -v 2000000; exec {} C13 {} 1 --child", exe.display(), state);
-    let mut child = Command::new("sh").arg("-c").arg(cmd).stdout(Stdio::piped()).stderr(Stdio::null()).spawn().expect("spawn");
+    let trace = std::env::var("VH_C13_TRACE").is_ok();
+    let mut child = Command::new("sh").arg("-c").arg(cmd).stdout(Stdio::piped()).stderr(if trace { Stdio::inherit() } else { Stdio::null() }).spawn().expect("spawn");
     let start = Instant::now();
     let mut status = None;
     while start.elapsed() < Duration::from_secs(10) {
@@ -628,12 +740,13 @@ pub fn run(rng: &mut Rng, n: usize, child: bool, seed: u64, thorough: bool) {
                 let risky = c.open_section || !c.clean;
                 if risky {
                     // a bounded number per run: each may cost seconds
-                    if isolated < if thorough { 40 } else { 3 } {
+                    if isolated < if thorough { 400 } else { 40 } {
                         isolated += 1;
                         run_isolated(state, &c);
                     }
                 } else {
                     run_section(&c, rng);
+                    run_section_loose(&c, rng);
                     // the index pairs parry produced for this section, through chained_indices
                     if let parry3d_f64::query::IntersectResult::Intersect(pl) = c.mesh.tri_mesh().intersection_with_local_plane(&c.plane.normal, c.plane.d, 1.0e-6) {
                         chain_case(rng, pl.indices().to_vec(), "parry polyline");
